@@ -116,3 +116,12 @@ Theorem C04_shrink_fresh_ids : forall p q,
   NoDup (filter (fun x => N.ltb (fspmax p) x) B).
 Proof. exact shrink_fresh_ids. Qed.
 Print Assumptions C04_shrink_fresh_ids.
+
+(* The printed names of the output's definitions (what the back ends use as assembly labels) are
+   pairwise distinct whenever those of the input are: a lifted label never prints like an input
+   definition or another lifted label (the repaired label loop of `lift`, /repo fix fd7ddb1). *)
+Theorem C04_lift_label_fresh : forall p q,
+  NoDup (map (fun d => show_cident (fsdname d)) (fspdefs p)) -> shrink_prog p = SOk q ->
+  NoDup (map (fun d => show_ident (dname d)) (pdefs q)).
+Proof. exact lift_label_fresh. Qed.
+Print Assumptions C04_lift_label_fresh.
